@@ -560,7 +560,7 @@ static int Campaign(const Inputs& in, const fs::path& scratch, bool big, Totals&
         j -= n_trunc;
         return cases[j];
     };
-    const uint64_t BATCH = 64;
+    const uint64_t BATCH = 512;
     // Two passes over the same case list. Pass 0 (workers may fork): every case whose rejection is tested with an
     // in-memory snapshot chainstate, and every set-preserving case (run in a fork). Pass 1 (workers never fork, an
     // on-disk LevelDB may start a helper thread): the must-fail cases with an on-disk snapshot chainstate.
@@ -570,7 +570,7 @@ static int Campaign(const Inputs& in, const fs::path& scratch, bool big, Totals&
         // every batch runs in a fresh fork of an untouched worker: thousands of (failed) activations in one process
         // eventually make an in-memory LevelDB schedule a compaction, i.e. start a thread, after which the
         // set-preserving cases could no longer be forked soundly
-        pool.isolate_jobs = true;
+        pool.isolate_jobs = pass == 0; // pass 1 never forks
         pool.on_worker_start = [&](unsigned) { w.PrivateDatadir(); };
         pool.run((total + BATCH - 1) / BATCH, [&](uint64_t job, fp::Out& out) {
             World::State base = w.Observe();
